@@ -8,6 +8,7 @@ import (
 	"math/rand/v2"
 
 	"gonum.org/v1/gonum/mat"
+	"gonum.org/v1/gonum/stat/distmat"
 	"gonum.org/v1/gonum/stat/samplemv"
 	"gonum.org/v1/gonum/stat/sampleuv"
 
@@ -433,6 +434,9 @@ func (r *sampRun) lhc() {
 			}
 		}
 	}
+	if c.D == 1 {
+		r.permTo(c.Cols[0], q)
+	}
 	src := &script{}
 	src.set(q...)
 	m := fillM(c.N, c.D)
@@ -445,6 +449,67 @@ func (r *sampRun) lhc() {
 		return
 	}
 	check("samplemv.LatinHypercube", func(i, k int) float64 { return m.At(i, k) })
+}
+
+// permTo: distmat.UniformPermutation.PermTo on a zeroed matrix with the scripted Fisher-Yates
+// choices must produce the permutation matrix of the permutation the specification derived
+// (dst[i][perm[i]] = 1); a second call (the generator keeps shuffling its index slice) must again
+// produce a permutation matrix; a non-square destination panics.
+func (r *sampRun) permTo(col lhcCol, q []uint64) {
+	n := len(col.Perm)
+	src := &script{}
+	src.set(q...)
+	var up *distmat.UniformPermutation
+	dst := mat.NewDense(n, n, nil)
+	o := core.Call(func() {
+		up = distmat.NewUniformPermutation(src)
+		up.PermTo(dst)
+	})
+	if r.protocolDrift(o, src) {
+		return
+	}
+	if o.Panicked {
+		r.fail("distmat.UniformPermutation.PermTo:panic", o.Text)
+		return
+	}
+	for i := 0; i < n; i++ {
+		for j := 0; j < n; j++ {
+			want := 0.0
+			if col.Perm[i] == j {
+				want = 1
+			}
+			if dst.At(i, j) != want {
+				r.fail("distmat.UniformPermutation.PermTo:matrix", fmt.Sprintf("n=%d Fisher-Yates choices %v: dst = %v, want the permutation matrix of %v", n, col.Js, mat.Formatted(dst), col.Perm))
+				return
+			}
+		}
+	}
+	// second call with the same choices again
+	src.set(q...)
+	dst2 := mat.NewDense(n, n, nil)
+	if o := core.Call(func() { up.PermTo(dst2) }); o.Panicked {
+		if !r.protocolDrift(o, src) {
+			r.fail("distmat.UniformPermutation.PermTo:panic", "second call: "+o.Text)
+		}
+		return
+	}
+	for i := 0; i < n; i++ {
+		rs, cs, bad := 0.0, 0.0, false
+		for j := 0; j < n; j++ {
+			if v := dst2.At(i, j); v != 0 && v != 1 {
+				bad = true
+			}
+			rs += dst2.At(i, j)
+			cs += dst2.At(j, i)
+		}
+		if bad || rs != 1 || cs != 1 {
+			r.fail("distmat.UniformPermutation.PermTo:not-a-permutation", fmt.Sprintf("n=%d second call: dst = %v is not a permutation matrix", n, mat.Formatted(dst2)))
+			return
+		}
+	}
+	if o := core.Call(func() { up.PermTo(mat.NewDense(n, n+1, nil)) }); !o.Panicked || o.Runtime {
+		r.fail("distmat.UniformPermutation.PermTo:shape-panic", "no (or a runtime) panic for a non-square destination")
+	}
 }
 
 // ---- Importance, IID, SampleUniformWeighted ----------------------------------------
